@@ -183,6 +183,12 @@ def check_growth(eng, res, G: Growth):
             why = "an exit of the growth loop can be taken before any unit was added"
         res.ob(rule, fi, f"exit:{kind}:{_exit_key(flow, cfg, node)}", "the growth step dominates every exit of the growth loop (at least one unit)", node, ok, why)
 
+    for r in own_nodes(fi.node):
+        if isinstance(r, ast.Return):
+            ok = cfg.must_pass(step_n, cfg.node_of(r))
+            res.ob(rule, fi, f"return:{'in-loop' if cfg.enclosing_loops(r) else 'after-loop' if head in cfg.reachable([cfg.entry], avoid_nodes=set()) and cfg.must_pass(head, cfg.node_of(r)) else 'before-loop'}",
+                   "no return of the growth function can be reached without a growth step (no early exit that adds zero units)", r, ok,
+                   "a return is reachable before any unit was added")
     # ------------------------------------------------------------------ R-STOP-TEST / R-START-MASS / R-CAP-NOT-COUNTED
     mass_exits = []
     other_exits = []
